@@ -302,7 +302,115 @@ impl<'a> Interp<'a> {
     }
 }
 
+/// One span shared by several threads, each recording a different field of it at the same moment (spin-synchronised
+/// rounds); a metric emitted in the span after every round must carry this round's value of *every* field: a record()
+/// replaces that field's earlier value and nothing else, whoever else is recording.
+fn run_shared(a: &Args) -> Report {
+    use std::sync::atomic::{AtomicU64, Ordering};
+    use std::sync::Arc;
+    let mut rep = Report::new("C17", &a.leg, a.seed);
+    let mut r = Rng::new(a.shard_seed());
+    let scenarios = a.budget(8, 400);
+    for sc in 0..scenarios {
+        let log = doubles::new_log();
+        let inner = LogRecorder::new(1, &log);
+        let rec = TracingContextLayer::all().layer(inner);
+        let subscriber = tracing_subscriber::registry().with(MetricsLayer::new());
+        let dispatch = Dispatch::new(subscriber);
+        // (shape, recordable fields as (record_field code, name))
+        let (shape, fields): (u8, Vec<(u8, &'static str)>) = match r.below(3) {
+            0 => (0, vec![(0, "user"), (3, "n")]),
+            1 => (1, vec![(0, "user"), (2, "service")]),
+            _ => (3, vec![(0, "user"), (1, "late")]),
+        };
+        let rounds = if a.thorough() { 60_000u64 } else { 12_000 };
+        let outer = tracing::dispatcher::with_default(&dispatch, || make_span(5, Some(None), "outer-svc", 0, false).0);
+        let span = tracing::dispatcher::with_default(&dispatch, || make_span(shape, Some(Some(&outer)), "init", 0, false).0);
+        let round = Arc::new(AtomicU64::new(0));
+        let done = Arc::new(AtomicU64::new(0));
+        let mut bad: Option<J> = None;
+        let mut checked = 0u64;
+        std::thread::scope(|scope| {
+            for (code, _name) in fields.iter().cloned() {
+                let (span, dispatch, round, done) = (span.clone(), dispatch.clone(), round.clone(), done.clone());
+                scope.spawn(move || {
+                    tracing::dispatcher::with_default(&dispatch, || {
+                        let mut k = 1u64;
+                        loop {
+                            let mut spins = 0u64;
+                            loop {
+                                let cur = round.load(Ordering::Acquire);
+                                if cur == u64::MAX {
+                                    return;
+                                }
+                                if cur >= k {
+                                    break;
+                                }
+                                spins += 1;
+                                if spins % 4096 == 0 {
+                                    std::thread::yield_now();
+                                }
+                            }
+                            let v = format!("r{}", k);
+                            let _ = record_field(&span, code, &v, k);
+                            done.fetch_add(1, Ordering::AcqRel);
+                            k += 1;
+                        }
+                    })
+                });
+            }
+            tracing::dispatcher::with_default(&dispatch, || {
+                for k in 1..=rounds {
+                    round.store(k, Ordering::Release);
+                    let want = k * fields.len() as u64;
+                    let mut spins = 0u64;
+                    while done.load(Ordering::Acquire) < want {
+                        spins += 1;
+                        if spins % 4096 == 0 {
+                            std::thread::yield_now();
+                        }
+                    }
+                    let _ = doubles::take_log(&log);
+                    span.in_scope(|| {
+                        let _ = rec.register_counter(&Key::from_name("m"), &MD);
+                    });
+                    let got = doubles::take_log(&log);
+                    checked += 1;
+                    let labels: BTreeMap<String, String> = match got.first().map(|e| &e.op) {
+                        Some(Op::Register { key, .. }) => key.labels.iter().cloned().collect(),
+                        _ => BTreeMap::new(),
+                    };
+                    let mut wrong = Vec::new();
+                    for (code, name) in &fields {
+                        let exp = if *code == 1 || *code == 3 { k.to_string() } else { format!("r{}", k) };
+                        if labels.get(*name) != Some(&exp) {
+                            wrong.push(format!("{}: expected {:?}, got {:?}", name, exp, labels.get(*name)));
+                        }
+                    }
+                    if got.len() != 1 || !wrong.is_empty() {
+                        bad = Some(jo! {"what" => "after two threads each recorded a different field of the same span, a metric emitted in that span lacks one of the recorded values (a record() must replace that field only)", "round" => k, "span_shape" => shape as u64, "fields_recorded_concurrently" => J::A(fields.iter().map(|f| J::s(f.1)).collect()), "wrong" => J::A(wrong.into_iter().map(J::s).collect()), "labels_received" => format!("{:?}", labels)});
+                        break;
+                    }
+                }
+                round.store(u64::MAX, Ordering::Release);
+            });
+        });
+        if let Some(d) = bad {
+            rep.violation("C17:concurrent-record-lost", d);
+        }
+        rep.count("rounds_checked", checked);
+        rep.case(mix(sc, shape as u64), checked > 100);
+        if rep.want_sample() {
+            rep.sample(jo! {"shared_span" => true, "span_shape" => shape as u64, "rounds_checked" => checked, "fields" => J::A(fields.iter().map(|f| J::s(f.1)).collect())});
+        }
+    }
+    rep
+}
+
 pub fn run(a: &Args) -> Option<Report> {
+    if a.leg == "shared-span" {
+        return Some(run_shared(a));
+    }
     if a.leg != "native" && a.leg != "asan" {
         return None;
     }
